@@ -94,6 +94,9 @@ type cEnv struct {
 	hook  callHook
 	depth int
 	steps *int
+	// ratArith permits exact rational + - * (used only on one-decimal table
+	// values: differences of MacroVector scores)
+	ratArith bool
 }
 
 func newCEnv(p *Pkg, bytes []uint8) *cEnv {
@@ -102,7 +105,7 @@ func newCEnv(p *Pkg, bytes []uint8) *cEnv {
 }
 
 func (e *cEnv) child() *cEnv {
-	return &cEnv{p: e.p, bytes: e.bytes, vars: map[types.Object]Val{}, hook: e.hook, depth: e.depth + 1, steps: e.steps}
+	return &cEnv{p: e.p, bytes: e.bytes, vars: map[types.Object]Val{}, hook: e.hook, depth: e.depth + 1, steps: e.steps, ratArith: e.ratArith}
 }
 
 // bytesFromCodes assembles receiver bytes from metric codes through Set's
@@ -621,6 +624,25 @@ func (e *cEnv) binop(op token.Token, a, b Val, t types.Type, at ast.Node) (Val, 
 	}
 	if a.K == VStr && b.K == VStr && op == token.ADD {
 		return vStr(a.S + b.S), nil
+	}
+	if e.ratArith && (op == token.ADD || op == token.SUB || op == token.MUL) {
+		if a.K == VNaN || b.K == VNaN {
+			if (a.K == VNaN || a.K == VRat || a.K == VInt) && (b.K == VNaN || b.K == VRat || b.K == VInt) {
+				return Val{K: VNaN}, nil
+			}
+		}
+		if (a.K == VRat || a.K == VInt) && (b.K == VRat || b.K == VInt) && (a.K == VRat || b.K == VRat) {
+			r := new(big.Rat)
+			switch op {
+			case token.ADD:
+				r.Add(toRat(a), toRat(b))
+			case token.SUB:
+				r.Sub(toRat(a), toRat(b))
+			case token.MUL:
+				r.Mul(toRat(a), toRat(b))
+			}
+			return Val{K: VRat, R: r}, nil
+		}
 	}
 	return Val{}, undecidedf(at, "operator %s on %s and %s is outside the fragment language (no float arithmetic is evaluated)", op, a, b)
 }
